@@ -1126,5 +1126,5 @@ def checks(h):
     def body(r):
         run_def(h, r, strict=not h._shrinking)
 
-    h.hyp("generated_definitions", recipe_strategy(), body, h.scale(300, 12000), 1)
+    h.hyp("generated_definitions", recipe_strategy(), body, h.scale(300, 8000), 1)
     run_corpus(h)
